@@ -52,6 +52,20 @@ impl SkimItem for PosItem {
     }
 }
 
+/// preview given as ANSI text whose colour stays on across line breaks
+struct AnsiItem {
+    text: String,
+}
+const ANSI_PREVIEW: &str = "\x1b[31mone\ntwo\nth\x1b[0mree\n\x1b[1;32mfour\nfive";
+impl SkimItem for AnsiItem {
+    fn text(&self) -> Cow<str> {
+        Cow::Borrowed(&self.text)
+    }
+    fn preview(&self, ctx: PreviewContext) -> ItemPreview {
+        ItemPreview::AnsiText(format!("OUT {} ansi\n{}", ctx.query, ANSI_PREVIEW))
+    }
+}
+
 #[derive(Clone, Debug)]
 struct Call {
     item: Option<usize>,     // index into the item table
@@ -140,7 +154,7 @@ fn run_case(seed: u64, id: u64, out: &mut Vec<String>) {
         match r.below(12) {
             0..=2 => { cur_item = Some(r.below(4) as usize); }
             3 => { cur_item = Some(if cur_item == Some(0) { 5 } else { 0 }); }   // 5: another entry with the same text as 0
-            4 => { cur_item = Some(if r.chance(1, 2) { 4 } else { 6 }); }   // a text-previewed item (6: with a scroll position beyond its content)
+            4 => { cur_item = Some(*r.pick(&[4usize, 6, 7])); }   // a text-previewed item (6: with a scroll position beyond its content)
             5 => { cur_item = None; }
             6..=7 => { q_no += 1; }
             8 => { let k = r.below(4) as usize; if cur_sel.contains(&k) { cur_sel.retain(|x| *x != k); } else { cur_sel.push(k); cur_sel.sort(); } }
@@ -156,7 +170,8 @@ fn run_case(seed: u64, id: u64, out: &mut Vec<String>) {
     let items: Vec<Arc<dyn SkimItem>> = (0..4).map(|k| Arc::new(CmdItem { text: format!("{} it{}", delays[k], k) }) as Arc<dyn SkimItem>)
         .chain(std::iter::once(Arc::new(TxtItem { text: "000 txt".to_string() }) as Arc<dyn SkimItem>))
         .chain(std::iter::once(Arc::new(CmdItem { text: format!("{} it0", delays[0]) }) as Arc<dyn SkimItem>))
-        .chain(std::iter::once(Arc::new(PosItem { text: "000 pos".to_string() }) as Arc<dyn SkimItem>)).collect();
+        .chain(std::iter::once(Arc::new(PosItem { text: "000 pos".to_string() }) as Arc<dyn SkimItem>))
+        .chain(std::iter::once(Arc::new(AnsiItem { text: "000 ansi".to_string() }) as Arc<dyn SkimItem>)).collect();
     let content_cell: Arc<Mutex<Option<Arc<V::SpinLock<Vec<AnsiString<'static>>>>>>> = Arc::new(Mutex::new(None));
     let seen: Arc<Mutex<Vec<String>>> = Arc::new(Mutex::new(Vec::new()));
     let (cc, sn) = (content_cell.clone(), seen.clone());
@@ -188,6 +203,7 @@ fn run_case(seed: u64, id: u64, out: &mut Vec<String>) {
                 None => "-".to_string(),
                 Some(4) => format!("OUT {} text", c.query),
                 Some(6) => format!("OUT {} pos", c.query),
+                Some(7) => format!("OUT {} ansi", c.query),
                 // {+2}: the second field of every selected item, or of the current item when nothing is selected
                 Some(k) => format!("OUT {} it{} N={} SEL={}", c.query, k % 5, k, if c.sel.is_empty() { format!("it{}", k % 5) } else { c.sel.iter().map(|x| if *x == 4 { "txt".to_string() } else { format!("it{}", x % 5) }).collect::<Vec<_>>().join(" ") }),
             });
@@ -213,6 +229,10 @@ fn run_case(seed: u64, id: u64, out: &mut Vec<String>) {
     }
     let final_first = pv.verif_content().lock().first().map(|l| l.stripped().to_string());
     let n_lines = pv.verif_content().lock().len();
+    // an ANSI text preview: the colour active at a line break carries over to the next line (one parser per text)
+    let ansi_attrs: Option<Vec<Vec<(char, tuikit::attr::Attr)>>> = if final_first.as_deref().map(|f| f.ends_with(" ansi")).unwrap_or(false) {
+        Some(pv.verif_content().lock().iter().map(|l| l.iter().collect()).collect())
+    } else { None };
     let init_off = pv.verif_vscroll();
     let nth_line = pv.verif_content().lock().get(init_off.saturating_sub(1)).map(|l| l.stripped().to_string());
     // the pane as drawn
@@ -275,6 +295,15 @@ fn run_case(seed: u64, id: u64, out: &mut Vec<String>) {
             } else if !nth_line.as_ref().map(|l| drawn_row0.starts_with(l.as_str())).unwrap_or(false) {
                 bad = Some((format!("settled pane is drawn as {:?}, expected to start with line {} of the content, {:?}", drawn_row0.trim_end(), init_off, nth_line), None));
             }
+        }
+    }
+    if let Some(got) = &ansi_attrs {
+        let mut parser = V::ANSIParser::default();
+        let text = format!("{}\n{}", final_first.clone().unwrap_or_default(), ANSI_PREVIEW);
+        let want: Vec<Vec<(char, tuikit::attr::Attr)>> = text.lines().map(|l| parser.parse_ansi(l).iter().collect()).collect();
+        if *got != want && bad.as_ref().map(|b| b.1.is_some()).unwrap_or(true) {
+            let k = got.iter().zip(want.iter()).position(|(a, b)| a != b).unwrap_or(0);
+            bad = Some((format!("ANSI text preview: line {} is drawn with attributes {:?}, expected {:?} (a colour left on at a line break carries over)", k, got.get(k).map(|l| l.iter().map(|c| format!("{:?}", c.1.fg)).collect::<Vec<_>>()), want.get(k).map(|l| l.iter().map(|c| format!("{:?}", c.1.fg)).collect::<Vec<_>>())), None));
         }
     }
     for (b, d, n, g) in &scrolls {
